@@ -1,5 +1,7 @@
 (* C18 — result getters are read-only and re-solving is reproducible. *)
-From MP Require Import Run.Session LP.Oracle Proofs.RunProofs Proofs.RunStructure Proofs.SessionProofs.
+From MP Require Import Run.Main Text.Render LP.Oracle Proofs.RunProofs Proofs.RunStructure Proofs.SessionProofs
+                       Proofs.CommandLineResults.
+From MP Require Import Run.Session.   (* last: `step` is the Solver object's step *)
 Local Open Scope list_scope. Open Scope Z_scope.
 
 Theorem C18_getter_pure : forall s g e s' t, step s (OGet g) e = Ok (s', t) -> s' = s.
@@ -37,3 +39,16 @@ Theorem C18_resolve_object : forall s lim1 e1 s1 lim2 e2 s2,
   s_status s2 = s_status s1 /\ s_info s2 = s_info s1.
 Proof. exact resolve_reproducible. Qed.
 Print Assumptions C18_resolve_object.
+
+(* the same on the Solver object built from its command line (Solver(argv) on any file of the documented format, any
+   acceptable option set): solve() twice, whatever the limits, clock readings and (correct) back ends *)
+Theorem C18_command_line : forall c A trailer t0 s lim1 e1 s1 lim2 e2 s2,
+  acceptable_ns (c_ns c) (c_twopl c) (c_stab c) = true ->
+  wf_ast (c_na c) (c_twopl c) A = true ->
+  c_bf c = false ->
+  milp_ok (denote (c_na c) (c_twopl c) A) (e_solve e1) -> milp_ok (denote (c_na c) (c_twopl c) A) (e_solve e2) ->
+  solver_new c (Some (render (c_na c) A trailer)) t0 = SReady s ->
+  do_solve s lim1 e1 = Ok s1 -> do_solve s1 lim2 e2 = Ok s2 ->
+  s_status s2 = s_status s1 /\ s_info s2 = s_info s1.
+Proof. exact command_line_resolve. Qed.
+Print Assumptions C18_command_line.
